@@ -1364,6 +1364,32 @@ func ruleReaderLifetime(c *Ctx, rule string) {
 					}
 				})
 			}
+			// the record that holds the reader may itself travel on: returned to the caller, or handed to a function of the repository
+			// (which then closes `target.reader`); who closes it is then not decided in this function
+			leavesInRecord := ""
+			for h := range held {
+				for _, ref := range *h.a.Referrers() {
+					u, ok := ref.(*ssa.UnOp)
+					if !ok || u.Op != token.MUL {
+						if cl, isCall := ref.(*ssa.Call); isCall {
+							if sc := cl.Call.StaticCallee(); sc != nil && c.isRepoFn(sc) {
+								leavesInRecord = "handed to " + fnName(sc)
+							}
+						}
+						continue
+					}
+					for _, r2 := range *u.Referrers() {
+						switch z := r2.(type) {
+						case *ssa.Return:
+							leavesInRecord = "returned in a " + types.TypeString(u.Type(), shortQual)
+						case *ssa.Call:
+							if sc := z.Call.StaticCallee(); sc != nil && c.isRepoFn(sc) {
+								leavesInRecord = "handed to " + fnName(sc) + " in a " + types.TypeString(u.Type(), shortQual)
+							}
+						}
+					}
+				}
+			}
 			closed := false
 			escapes := ""
 			instrsOf(fn, func(x ssa.Instruction) {
@@ -1403,6 +1429,8 @@ func ruleReaderLifetime(c *Ctx, rule string) {
 			switch {
 			case escapes != "":
 				ob.Bad("the reader outlives the iteration that opened it (" + escapes + "): a later command can use it after it was closed")
+			case !closed && leavesInRecord != "":
+				ob.Und("the reader leaves this function inside a record (" + leavesInRecord + "); who closes it is not followed")
 			case !closed:
 				ob.Bad("no Close call on this reader post-dominates its creation: on this path the descriptor stays open (a long file list exhausts descriptors and os.Open panics)")
 			default:
